@@ -5,7 +5,11 @@ correspondence: the Lean decision table (GSV/Model/Validity.lean, run on Rat) ag
   model dimension, invalid-dimension warning, optional arguments, defaults and bounds; bound probes (just inside /
   on / just outside every end of every interval, mixed with far-out, random and doubly-wrong values) comparing
   "constructor raises <arg, error case>" with `firstError`; dimension changes after construction against
-  `acceptsAfterSetDim`; and the composition the closure theorems talk about (cov_spatial = covariance o norm o
+  `acceptsAfterSetDim` (the object having been evaluated through every cheap public read accessor first, and its
+  correlation afterwards compared with a model constructed in the new dimension); random in-place histories
+  (evaluations, model.dim = d, model.<arg> = v) against the state machine `hStep` / `hTrace` — raised (argument, case),
+  warnings, exact final state, and the values of the object against a fresh model of the predicted state (the content
+  of `history_eval_irrelevant`: evaluations leave no trace); and the composition the closure theorems talk about (cov_spatial = covariance o norm o
   linear map, cov_yadrenko = covariance o chordal = covariance o Euclidean distance of sphere points, cov_axis) for
   random `rescale` and random values of every optional argument that has a `_rescaled` counterpart; the TPL classes
   against the Lean model of their truncation scales / two-term correlation / var_factor (`tplScales`, `tplCor`,
@@ -14,7 +18,10 @@ correspondence: the Lean decision table (GSV/Model/Validity.lean, run on Rat) ag
 search: minimum eigenvalue of covariance matrices built with the real API on lattices, clusters, random and sphere
   points at the edges of every bound, for plain / anisotropic-rotated / temporal / lat-lon configurations; sign of the
   radial Fourier transform of the compactly supported models by quadrature; cor(0) = 1 and |cor| <= 1 on grids;
-  the stale-bounds history of finding D8.  Every scan cycles `rescale` (default, < 1, > 1) and the optional
+  the stale-bounds history of finding D8; history_scan: the same eigenvalue / |cor| <= 1 / cor(0) = 1 scans and equality
+  with a freshly constructed model for models that were evaluated and then changed in place (dimension up / down,
+  optional arguments to both edges, len_scale / rescale / var / nugget / anis / angles, compound histories; plain,
+  space-time, lat-lon).  Every scan cycles `rescale` (default, < 1, > 1) and the optional
   arguments with a `_rescaled` counterpart (len_low of the TPL classes: 0, 0.1, 1, 5 times len_scale) through all
   their combinations; the TPL classes are compared with the quadrature of their defining superposition over the
   rescaled truncation interval (independent oracle); every class must be invariant under (len_scale, rescale = s,
@@ -46,6 +53,10 @@ ASSUMPTIONS = [
     "TPL classes: the Lean model takes the values of the untruncated terms tplstable_cor(r, scale, H, alpha) as numbers; their identification"
     " with tplMode = 2H / scale^2H * int_0^scale lam^(2H-1) exp(-(r/lam)^alpha) dlam (the object of tplCor_eq_mixture) is not proved; it is"
     " explored by mix_scan (quadrature of the defining superposition, 2e-10) and by C03's closed-form comparison",
+    "in-place histories: the Lean state machine (hStep) carries the dimension, the dimension of the stored bounds and var / len_scale / nugget /"
+    " optional arguments; rescale, anis, angles, integral_scale and set_arg_bounds histories are explored by the search only (history_scan:"
+    " PSD scans + equality with a fresh model); for TPLGaussian / TPLExponential / TPLStable the reported var = var_raw * var_factor moves with"
+    " hurst / len_scale / len_low and is not part of the exact final-state comparison",
 ]
 DISAGREEMENT_IS_VIOLATION = False
 _FOCUS = set()     # classes named by the disagreements of the last correspondence run: the deep search concentrates on them
@@ -327,6 +338,12 @@ def corr_setdim(ctx, dist, dis):
             continue
         if m is None:
             continue
+        # the model is looked at before its dimension changes (every cheap public read accessor), as a user who plots a
+        # model and then re-uses the object would do: `hStep _ .eval` leaves the state alone
+        evaluated = d0 != d1 and (not v or list(v.values())[0] == float(DIM_DEP[cls](max(d0, d1))))
+        if evaluated:
+            touch(m, draw_touch(None, "all"))
+            dist["setdim:evaluated-before"] = dist.get("setdim:evaluated-before", 0) + 1
         with warnings.catch_warnings(record=True) as w:
             warnings.simplefilter("always")
             try:
@@ -342,6 +359,20 @@ def corr_setdim(ctx, dist, dis):
                         "lean": [l["result"], l["warn"], l["accepts"]]})
         if l["accepts"] and not l["fresh_accepts"]:
             dist["setdim:stale-accept"] = dist.get("setdim:stale-accept", 0) + 1
+        if evaluated and acc and l["fresh_accepts"]:
+            # the object now IS the model (cls, d1, values): same correlation as a model constructed in d1
+            fresh, fres, fwarn, _ = construct(cls, dim=d1, **{a: float(getattr(m, a)) for a in m.opt_arg})
+            if fresh is None or fwarn:
+                dis.append({"what": "setdim:fresh-model-rejected", "cls": cls, "d0": d0, "d1": d1, "vals": v, "real": [fres, fwarn], "lean": "accepted"})
+                continue
+            hh = hist_lags(m)
+            with warnings.catch_warnings():
+                warnings.simplefilter("ignore")
+                c1, c2 = np.asarray(m.correlation(hh), float), np.asarray(fresh.correlation(hh), float)
+            if not np.array_equal(np.isfinite(c1), np.isfinite(c2)) or np.any(np.abs(c1 - c2)[np.isfinite(c1)] > 1e-13):
+                k = int(np.nanargmax(np.abs(c1 - c2)))
+                dis.append({"what": "setdim:correlation-differs-from-fresh-model", "cls": cls, "d0": d0, "d1": d1, "vals": v,
+                            "r": float(hh[k]), "real": float(c1[k]), "fresh": float(c2[k])})
     return len(ops)
 
 
@@ -568,6 +599,156 @@ def corr_tplmix(ctx, dist, dis, n_random):
     return len(ops), len(nontrivial)
 
 
+_ARG_INDEX = {"var": 0, "len_scale": 1, "nugget": 2, "nu": 3, "alpha": 4, "hurst": 5, "len_low": 6}
+
+
+def corr_history(ctx, dist, dis, n_per_class):
+    """in-place histories against the state machine `hStep` / `hTrace` of GSV/Model/Validity.lean (on Rat): construct,
+    then a random sequence of evaluations (`eval`: any subset of the public read accessors), `model.dim = d` (d = 0..5,
+    also dimensions the class warns about, also on lat-lon models where it is forced) and `model.<arg> = v` for var,
+    len_scale, nugget and the optional arguments (values at the edges of the bounds of EVERY dimension, so that both sides
+    of the stale-bounds finding D8 occur, and values outside).  Compared: the constructor result; for every change the
+    raised (argument, error case) / ValueError and the invalid-dimension warning; the final dimension and parameter
+    values (exact); `check_arg_bounds()` + `check_dim` of the final state with `hAccepted`; a fresh constructor on the
+    predicted state with `hFreshAccepted`; and — the content of `history_eval_irrelevant`: evaluations leave no trace —
+    the correlation / covariance of the real object after the history with those of a freshly constructed model of the
+    predicted (dimension, values).  TPLGaussian / TPLExponential / TPLStable report `var = var_raw * var_factor`, which
+    moves with hurst / len_scale / len_low: their final `var` is not compared and their len_scale, hurst, len_low stay
+    inside the bounds (var_factor is NaN / raises otherwise)."""
+    g = gs()
+    rng = np.random.RandomState(ctx.seed + 6)
+    ops_l, meta = [], []
+    cfgs = ["plain", "plain", "temporal", "latlon", "latlon+temporal"]
+    for ic, cls in enumerate(CLASSES):
+        tpl = cls in TPL_ALPHA
+        for t in range(n_per_class):
+            cfg = cfgs[(t + ic + ctx.seed) % len(cfgs)]
+            latlon, temporal = cfg.startswith("latlon"), cfg.endswith("temporal")
+            d0 = int(rng.randint(2 if temporal else 1, 5))
+            ckw = {"latlon": True, "temporal": temporal} if latlon else {"dim": d0, "temporal": temporal}
+            dcur = (3 + int(temporal)) if latlon else d0
+            ev0 = edge_values(cls, dcur, **{k: v for k, v in ckw.items() if k != "dim"})
+            start = {a: float(v[rng.randint(len(v))]) for a, v in ev0.items() if rng.rand() < 0.6}
+            start["len_scale"] = float(rng.choice([1.5, 3.0, 0.7]))
+            if rng.rand() < 0.5:
+                start["var"] = float(rng.choice([2.0, 0.3]))
+            ls = start["len_scale"]
+            ops, kinds, args, vals = [], [], [], []
+            for _ in range(int(rng.randint(2, 7))):
+                u = rng.rand()
+                if u < 0.3:
+                    ops.append(("touch", draw_touch(rng, ["all", "some", "some"][rng.randint(3)])))
+                    kinds.append(0), args.append(0), vals.append(proto.rat(0.0))
+                elif u < 0.55:
+                    lo = 2 if (temporal and not latlon) else (0 if rng.rand() < 0.1 else 1)
+                    d = int(rng.randint(lo, 6 if rng.rand() < 0.1 else 5))
+                    ops.append(("set", "dim", d))
+                    kinds.append(1), args.append(d), vals.append(proto.rat(0.0))
+                else:
+                    names = BASE_ARGS + sorted(set(edge_values(cls, 1)) | set(rescalable_opt_args(cls)))
+                    a = names[rng.randint(len(names))]
+                    bad = rng.rand() < 0.2 and not (tpl and a in ("len_scale", "hurst", "len_low"))
+                    if a in ("var", "len_scale"):
+                        v = float(rng.choice([0.0, -1.0])) if bad else float(rng.choice([0.5, 1.0, 2.0, 4.0]))
+                    elif a == "nugget":
+                        v = float(rng.choice([-0.1, nudge(0.0, -1)])) if bad else float(rng.choice([0.0, 0.1, 1.0]))
+                    elif a in rescalable_opt_args(cls):
+                        v = -0.5 if bad else float(LOW_FACTORS[rng.randint(len(LOW_FACTORS))] * ls)
+                    else:
+                        # an edge of the bounds of SOME dimension 1..4 (stale bounds accept / reject on both sides), or outside
+                        evd = edge_values(cls, int(rng.randint(1, 5)))[a]
+                        v = float(evd[rng.randint(len(evd))])
+                        if bad:
+                            v = float(rng.choice([evd[0] - 1.0, evd[2] + 1.0 if len(evd) > 2 else 1e3, nudge(evd[0], -1) if evd[0] != 1e-3 else 0.0]))
+                    ops.append(("set", a, v))
+                    kinds.append(2), args.append(_ARG_INDEX[a]), vals.append(proto.rat(v))
+            op = {"op": "c02_history", "cls": cls, "dim": d0, "latlon": latlon, "temporal": temporal, "kinds": kinds, "args": args, "vals": vals}
+            for k, v in start.items():
+                op[k] = proto.rat(v)
+            ops_l.append(op)
+            meta.append((cls, cfg, {**ckw, **start}, ops))
+    lean = run_driver(ops_l)
+    nontrivial = set()
+    for (cls, cfg, start, ops), l in zip(meta, lean):
+        tpl = cls in TPL_ALPHA
+        case = {"cls": cls, "config": cfg, "start": start, "ops": [list(o) for o in ops]}
+        dist["history:" + cfg] = dist.get("history:" + cfg, 0) + 1
+        if "error" in l or "error_kind" in l:
+            dis.append({"what": "history:driver-error", "lean": l, **case})
+            continue
+        m, results = run_history(cls, start, ops)
+        canon = lambda r: "ValueError" if isinstance(r, str) and r.startswith("ValueError") else r
+        if m is None:
+            if canon(results[0][0]) != l["construct"]:
+                dis.append({"what": "history:construct", "real": results[0][0], "lean": l["construct"], **case})
+            continue
+        if l["construct"] != "ok":
+            dis.append({"what": "history:construct", "real": "ok", "lean": l["construct"], **case})
+            continue
+        # per change: raised (argument, case) / ValueError, warning
+        lean_steps = [(e, w) for (e, w), o in zip(zip(l["err"], l["warn"]), ops) if o[0] == "set"]
+        real_steps = [(canon(r), w) for r, w in results]
+        for i, (rs, lsx) in enumerate(zip(real_steps, lean_steps)):
+            kind = "ok" if rs[0] == "ok" else ("ValueError" if rs[0] == "ValueError" else "raise")
+            dist[f"history-step:{kind}" + (":warn" if rs[1] else "")] = dist.get(f"history-step:{kind}" + (":warn" if rs[1] else ""), 0) + 1
+            if rs != (lsx[0], lsx[1]):
+                dis.append({"what": "history:step", "step": i, "real": list(rs), "lean": list(lsx), **case})
+                break
+        else:
+            # final state
+            names = BASE_ARGS + list(m.opt_arg)
+            real_p = {a: float(getattr(m, a)) for a in names}
+            lean_p = {a: Fraction(*l["params"][_ARG_INDEX[a]]) for a in names}
+            if int(m.dim) != l["dim"]:
+                dis.append({"what": "history:final-dim", "real": int(m.dim), "lean": l["dim"], **case})
+                continue
+            badp = [a for a in names if not (tpl and a == "var") and Fraction(real_p[a]) != lean_p[a]]
+            if badp:
+                dis.append({"what": "history:final-values", "args": badp, "real": {a: real_p[a] for a in badp},
+                            "lean": {a: float(lean_p[a]) for a in badp}, **case})
+                continue
+            with warnings.catch_warnings():
+                warnings.simplefilter("ignore")
+                try:
+                    m.check_arg_bounds()
+                    acc = bool(m.check_dim(m.dim))
+                except ValueError:
+                    acc = False
+            if acc != l["accepted"]:
+                dis.append({"what": "history:accepted-in-place", "real": acc, "lean": l["accepted"], **case})
+            # a fresh model of the PREDICTED state
+            fkw = {k: v for k, v in start.items() if k in ("latlon", "temporal")}
+            if not fkw.get("latlon"):
+                fkw["dim"] = int(l["dim"])
+            fkw.update({a: float(lean_p[a]) for a in names})
+            if tpl:
+                fkw["var"] = real_p["var"]
+            fresh, fres, fwarn, _ = construct(cls, **fkw)
+            facc = fresh is not None and not fwarn
+            # (TPL: var is not modelled, a wrong var is rejected by both sides through the sign of var_raw)
+            if facc != l["fresh_accepted"]:
+                dis.append({"what": "history:fresh-accepted", "real": [fres, fwarn], "lean": l["fresh_accepted"], **case})
+            nontrivial.add((cls, cfg, acc, facc, int(m.dim) > start.get("dim", 9), any(o[0] == "touch" for o in ops)))
+            dist[f"history-final:accepted={acc},fresh={facc}"] = dist.get(f"history-final:accepted={acc},fresh={facc}", 0) + 1
+            if facc and acc:
+                with warnings.catch_warnings():
+                    warnings.simplefilter("ignore")
+                    amp = 1.0
+                    if tpl and m.len_low > 0:
+                        a_, b_ = ((m.len_low + m.len_scale) / m.rescale) ** (2 * m.hurst), (m.len_low / m.rescale) ** (2 * m.hurst)
+                        amp = (a_ + b_) / (a_ - b_)
+                    hh = hist_lags(m)
+                    c1, c2 = np.asarray(m.correlation(hh), float), np.asarray(fresh.correlation(hh), float)
+                    v1, v2 = np.asarray(m.covariance(hh), float), np.asarray(fresh.covariance(hh), float)
+                fin = np.isfinite(c1) & np.isfinite(c2)
+                if np.any(np.isfinite(c1) != np.isfinite(c2)) or np.any(np.abs(c1 - c2)[fin] > 1e-13 * amp) \
+                        or np.any(np.abs(v1 - v2)[fin] > 1e-12 * amp * abs(m.var)):
+                    k = int(np.argmax(np.where(fin, np.abs(c1 - c2), np.inf)))
+                    dis.append({"what": "history:values-differ-from-fresh-model-of-predicted-state", "r": float(hh[k]), "real": float(c1[k]),
+                                "fresh": float(c2[k]), "predicted_state": fkw, **case})
+    return len(ops_l), len(nontrivial)
+
+
 def correspondence(ctx):
     dist, dis = {}, []
     n1, samples = corr_table(ctx, dist, dis)
@@ -583,6 +764,11 @@ def correspondence(ctx):
     except Exception as e:
         n5, k5 = 0, 0
         dis.append({"what": "tplmix:exception", "real": f"{type(e).__name__}: {e}"})
+    try:
+        n6, k6 = corr_history(ctx, dist, dis, ctx.scale(8, 80))
+    except Exception as e:
+        n6, k6 = 0, 0
+        dis.append({"what": "history:exception", "real": f"{type(e).__name__}: {e}"})
     _FOCUS.clear()
     _FOCUS.update(d["cls"] for d in dis if d.get("cls"))
     if any(not d.get("cls") for d in dis):
@@ -594,7 +780,7 @@ def correspondence(ctx):
         if k not in seen:
             seen.add(k)
             out.append(d)
-    return {"evaluations": n1 + n2 + n3 + n4 + n5, "distinct_nontrivial": n1 + k2 + k5, "exhaustive": True,
+    return {"evaluations": n1 + n2 + n3 + n4 + n5 + n6, "distinct_nontrivial": n1 + k2 + k5 + k6, "exhaustive": True,
             "rule": "table: every (class, dim 1..4, plain/temporal/latlon/latlon+temporal) and spatial_dim variants — finite, all enumerated,"
                     " compared for model dim, warning, check_dim, optional arguments, exact defaults and bounds; probes: per class x dim x"
                     " argument the values {bound, +-1ulp, +-1e-9, +-1, interior, far} at both ends and random mixtures of 1-3 arguments,"
@@ -604,7 +790,12 @@ def correspondence(ctx):
                     " classes x len_low {0, snapped, just not snapped, 0.1/1/5 len_scale} x rescale {default, 2, 0.4, 3.7, 1, 0.13} (full grid) +"
                     " random cases, hurst at both edges and inside, plain / anisotropic / temporal / lat-lon: rescaled lengths exact, var_factor,"
                     " correlation = tplCor(tplScales) to 4e-15 x (w_up + w_low) through correlation, covariance, variogram, cov_spatial,"
-                    " cov_yadrenko; distinct = (class, len_low kind, rescale kind, configuration)",
+                    " cov_yadrenko; distinct = (class, len_low kind, rescale kind, configuration); history: per class random in-place histories"
+                    " (evaluations of random subsets of the public read accessors, model.dim = 0..5 incl. warned and forced lat-lon dimensions,"
+                    " model.<arg> = edge values of the bounds of every dimension / values outside) against hTrace on Rat: raised (argument, case),"
+                    " warnings, exact final dimension and values, check_arg_bounds of the final state, a fresh constructor on the predicted state,"
+                    " and correlation / covariance of the object equal to those of a fresh model of the predicted state (1e-13); distinct ="
+                    " (class, configuration, accepted in place, accepted fresh, dimension raised, evaluated)",
             "samples": samples, "disagreements": out[:20], "distribution": dist}
 
 
@@ -1287,6 +1478,479 @@ def stale_dim_scan(ctx, viol):
     return ev
 
 
+# ---------------------------------------------------------------------------------------------------------------
+# in-place histories: construct -> evaluate -> change through the public setters -> (evaluate -> change)* -> scan
+# ---------------------------------------------------------------------------------------------------------------
+# every public read access that a model could serve from a cache; unknown names are skipped, an evaluator that raises
+# on this model is ignored here (the other scans call them on fresh models)
+HIST_TOUCH = ["correlation", "covariance", "variogram", "cor", "cov_spatial", "vario_spatial", "cov_axis", "vario_axis",
+              "cov_nugget", "vario_nugget", "cov_yadrenko", "vario_yadrenko", "cor_yadrenko", "spectral_density", "spectrum",
+              "spectral_rad_pdf", "ln_spectral_rad_pdf", "var_factor", "len_rescaled", "len_scale_vec", "isometrize",
+              "anisometrize", "main_axes", "sill", "repr", "eq", "opt_arg_bounds", "arg_bounds", "check_dim",
+              "percentile_scale", "integral_scale", "integral_scale_vec"]
+HIST_TOUCH_SLOW = {"percentile_scale", "integral_scale", "integral_scale_vec"}     # quadrature / root finding: drawn rarely
+
+
+def touch(m, names):
+    """evaluate the public read accessors `names` of the model once (what a plot, a fit or a kriging run does)"""
+    r = m.len_rescaled * np.array([0.0, 0.3, 0.9, 2.0])
+    rows = (2 + int(m.temporal)) if m.latlon else m.dim
+    pos = np.outer(np.linspace(0.2, 1.0, rows), r[1:]) * (10.0 / m.len_rescaled if m.latlon else 1.0)
+    pos_d = np.outer(np.linspace(0.2, 1.0, m.dim), r[1:])
+    k = np.array([0.3, 1.0, 3.0]) / m.len_rescaled
+    for n in names:
+        with warnings.catch_warnings():
+            warnings.simplefilter("ignore")
+            try:
+                if n in ("correlation", "covariance", "variogram", "cov_nugget", "vario_nugget", "cov_yadrenko", "vario_yadrenko",
+                         "cor_yadrenko"):
+                    getattr(m, n)(r)
+                    getattr(m, n)(float(r[1]))
+                elif n == "cor":
+                    m.cor(r / m.len_rescaled)
+                elif n in ("cov_spatial", "vario_spatial"):
+                    getattr(m, n)(pos_d)
+                elif n in ("isometrize", "anisometrize"):
+                    getattr(m, n)(pos if n == "isometrize" else pos_d)
+                elif n in ("cov_axis", "vario_axis"):
+                    for ax in range(rows if not m.latlon else 1):
+                        getattr(m, n)(r, ax)
+                elif n in ("spectral_density", "spectrum", "spectral_rad_pdf", "ln_spectral_rad_pdf"):
+                    getattr(m, n)(k)
+                elif n in ("var_factor", "main_axes"):
+                    getattr(m, n)()
+                elif n == "percentile_scale":
+                    m.percentile_scale(0.9)
+                elif n == "check_dim":
+                    m.check_dim(m.dim)
+                elif n == "repr":
+                    repr(m)
+                elif n == "eq":
+                    m == m     # noqa: B015
+                else:
+                    getattr(m, n)
+            except Exception:
+                pass
+
+
+def draw_touch(rng, level):
+    """level 'all': every cheap accessor; 'some': a random non-empty subset (slow ones rarely); 'none': nothing"""
+    cheap = [n for n in HIST_TOUCH if n not in HIST_TOUCH_SLOW]
+    if level == "none":
+        return []
+    if level == "all":
+        return cheap
+    k = int(rng.randint(1, 5))
+    out = [cheap[i] for i in rng.permutation(len(cheap))[:k]]
+    if rng.rand() < 0.08:
+        out.append(sorted(HIST_TOUCH_SLOW)[rng.randint(len(HIST_TOUCH_SLOW))])
+    return out
+
+
+def edge_values(cls, d, **cfg):
+    """{optional argument: values at / next to both ends of its interval and the default} for a FRESH model of the
+    class in dimension d and configuration cfg (no randomness); rescalable lengths are left to LOW_FACTORS"""
+    key = ("edge_values", cls, d, tuple(sorted(cfg.items())))
+    if key not in _RESCALED_CACHE:
+        _RESCALED_CACHE[key] = _edge_values(cls, d, **cfg)
+    return _RESCALED_CACHE[key]
+
+
+def _edge_values(cls, d, **cfg):
+    with warnings.catch_warnings():
+        warnings.simplefilter("ignore")
+        try:
+            m = getattr(gs(), cls)(dim=d, **cfg)
+        except Exception:
+            return {}
+    out = {}
+    for a, b in m.opt_arg_bounds.items():
+        if a in rescalable_opt_args(cls):
+            continue
+        iv = b[2] if len(b) == 3 else "cc"
+        lo, hi = float(b[0]), float(b[1])
+        vals = [lo if iv[0] == "c" else (nudge(lo, 1) if lo != 0 else 1e-3), lo + 1e-2]
+        vals += [1.0, 30.0] if math.isinf(hi) else [hi if iv[1] == "c" else nudge(hi, -1), hi - 1e-2]
+        vals.append(float(getattr(m, a)))
+        out[a] = [float(v) for v in dict.fromkeys(vals)]
+    return out
+
+
+def state_kwargs(m):
+    """constructor arguments that reproduce the public state of the model (what `repr` shows): the model a user would
+    build from scratch with the same dimension / configuration and the same parameter values"""
+    kw = dict(var=float(m.var), len_scale=float(m.len_scale), nugget=float(m.nugget), rescale=float(m.rescale))
+    if m.latlon:
+        kw.update(latlon=True, temporal=bool(m.temporal), geo_scale=float(m.geo_scale))
+        if m.temporal:
+            kw["anis"] = [float(m.anis[-1])]
+    else:
+        kw.update(dim=int(m.dim), temporal=bool(m.temporal))
+        if m.dim > 1:
+            kw["anis"] = [float(a) for a in m.anis]
+            kw["angles"] = [float(a) for a in m.angles]
+    for a in m.opt_arg:
+        kw[a] = float(getattr(m, a))
+    return kw
+
+
+def apply_set(m, attr, value):
+    """`model.attr = value` through the public setter; returns (canonical result, invalid-dimension warning?)"""
+    with warnings.catch_warnings(record=True) as w:
+        warnings.simplefilter("always")
+        try:
+            setattr(m, attr, value)
+            res = "ok"
+        except ValueError as e:
+            mm = _ERR.match(str(e))
+            res = [mm.group(1), _CASE[mm.group(2)]] if mm else "ValueError:" + str(e)[:40]
+        except Exception as e:
+            res = type(e).__name__
+    return res, any("is not appropriate for this model" in str(x.message) for x in w)
+
+
+def valid_dims(cls, cfg):
+    """dimensions a model of the class accepts without warning in configuration cfg ('plain' / 'temporal')"""
+    key = ("dims", cls, cfg)
+    if key not in _RESCALED_CACHE:
+        with warnings.catch_warnings():
+            warnings.simplefilter("ignore")
+            m = getattr(gs(), cls)(dim=2)
+        lo = 2 if cfg == "temporal" else 1
+        _RESCALED_CACHE[key] = ([d for d in range(lo, 5) if m.check_dim(d)], [d for d in range(lo, 5) if not m.check_dim(d)])
+    return _RESCALED_CACHE[key]
+
+
+def hist_start(cls, cfg, d, rng, cyc, opt=None, len_rescaled=None):
+    """constructor arguments of the model a history starts from: configuration cfg in ('plain', 'temporal', 'latlon',
+    'latlon+temporal'), dimension d (ignored by lat-lon), optional arguments `opt`; rescale / rescalable lengths from the
+    shared cycle; the rescaled length is comparable with the unit lattice spacing of the point sets"""
+    resc, lowf = cyc.next()
+    lr = float(len_rescaled if len_rescaled is not None else rng.choice([1.5, 3.0, 6.0]))
+    kw = dict(var=float(rng.choice([1.0, 2.0, 0.3])), nugget=float(rng.choice([0.0, 0.0, 0.1])))
+    kw.update(opt or {})
+    if resc is not None:
+        kw["rescale"] = resc
+    if cfg.startswith("latlon"):
+        geo = float(rng.choice([1.0, 6371.0]))
+        kw.update(latlon=True, temporal=cfg.endswith("temporal"), geo_scale=geo)
+        lr = lr * geo / 6.0
+        if kw["temporal"]:
+            kw["anis"] = [float(10 ** rng.uniform(-0.7, 0.7))]
+    else:
+        kw.update(dim=int(d), temporal=cfg == "temporal")
+        if d > 1 and rng.rand() < 0.6:
+            kw["anis"] = [float(10 ** rng.uniform(-0.5, 0.5)) for _ in range(d - 1)]
+            kw["angles"] = [float(rng.uniform(-3, 3)) for _ in range(d * (d - 1) // 2)]
+    if ("default_rescale", cls) not in _RESCALED_CACHE:
+        with warnings.catch_warnings():
+            warnings.simplefilter("ignore")
+            try:
+                _RESCALED_CACHE[("default_rescale", cls)] = float(getattr(gs(), cls)(dim=1).default_rescale())
+            except Exception:
+                _RESCALED_CACHE[("default_rescale", cls)] = 1.0
+    s_eff = _RESCALED_CACHE[("default_rescale", cls)] if resc is None else resc
+    kw["len_scale"] = lr * s_eff
+    if lowf > 0:
+        for a in rescalable_opt_args(cls):
+            kw[a] = lowf * kw["len_scale"]
+    return kw
+
+
+def draw_op(cls, cfg, cur, rng):
+    """one random in-place change ('set', attribute, value) for a model whose current (dim, len_scale) is `cur`; values
+    are inside the bounds a fresh model of the CURRENT dimension would have (edges included)"""
+    d, ls = cur["dim"], cur["len_scale"]
+    latlon = cfg.startswith("latlon")
+    kinds = ["dim", "dim", "opt", "opt", "len_scale", "rescale", "var", "nugget", "anis", "angles"]
+    for _ in range(20):
+        k = kinds[rng.randint(len(kinds))]
+        if k == "dim":
+            ok, bad = valid_dims(cls, "temporal" if cfg.endswith("temporal") else "plain")
+            pool = [x for x in (bad if bad and rng.rand() < 0.15 else ok) if x != d or latlon]
+            if not pool:
+                continue
+            return ("set", "dim", int(pool[rng.randint(len(pool))]))
+        if k == "opt":
+            ev = edge_values(cls, d, **({"latlon": True, "temporal": cfg.endswith("temporal")} if latlon else {"temporal": cfg == "temporal"}))
+            names = list(ev) + rescalable_opt_args(cls)
+            if not names:
+                continue
+            a = names[rng.randint(len(names))]
+            if a in ev:
+                return ("set", a, float(ev[a][rng.randint(len(ev[a]))]))
+            return ("set", a, float(LOW_FACTORS[rng.randint(len(LOW_FACTORS))] * ls))
+        if k == "len_scale":
+            f = float(rng.choice([0.5, 2.0, 1.3]))
+            if not latlon and d > 1 and rng.rand() < 0.3:
+                return ("set", "len_scale", [ls * f * float(10 ** rng.uniform(-0.3, 0.3)) for _ in range(d)])
+            return ("set", "len_scale", ls * f)
+        if k == "rescale":
+            return ("set", "rescale", RESCALES[rng.randint(len(RESCALES))])
+        if k == "var":
+            return ("set", "var", float(rng.uniform(0.3, 3)))
+        if k == "nugget":
+            return ("set", "nugget", float(rng.choice([0.0, 0.1, 1.0])))
+        if k == "anis" and (cfg == "latlon+temporal" or (not latlon and d > 1)):
+            return ("set", "anis", [float(10 ** rng.uniform(-0.7, 0.7)) for _ in range(1 if latlon else d - 1)])
+        if k == "angles" and not latlon and d > 1:
+            return ("set", "angles", [float(rng.uniform(-3, 3)) for _ in range(d * (d - 1) // 2)])
+    return ("set", "var", 1.0)
+
+
+def run_history(cls, start, ops):
+    """build the start model and replay ops = [('touch', names) | ('set', attr, value)] on it.  Returns (model or None,
+    results per 'set' op as (canonical result, dim warning)); the model is None when the constructor raised"""
+    m, res, dimwarn, _ = construct(cls, **start)
+    out = []
+    if m is None:
+        return None, [(res, dimwarn)]
+    for op in ops:
+        if op[0] == "touch":
+            touch(m, op[1])
+        else:
+            out.append(apply_set(m, op[1], op[2]))
+    return m, out
+
+
+def hist_lags(m):
+    hh = m.len_rescaled * np.concatenate([[0.0], 10.0 ** np.linspace(-6, 1.2, 37), np.linspace(0.05, 3, 60)])
+    if hasattr(m, "len_low_rescaled") and m.len_low_rescaled > 0:
+        hh = np.concatenate([hh, np.linspace(0, 4 * (m.len_low + m.len_scale) / m.rescale, 41)])
+    win = snap_window(m)
+    return hh[(hh == 0) | (hh > win * 1.001)]          # N3: the isclose window of the TPL classes is a known finding
+
+
+def hist_check(ctx, cls, m, case, viol, rng, stats, rich=False):
+    """the PSD scans of eig_scan / cor_scan on a model that went through an in-place history, and its comparison with a
+    freshly constructed model of the same public state.  Classification: a state a fresh constructor rejects (stale bounds)
+    that fails the scans is finding D8 (`stale-dim-dependent-bounds`); a failure that the fresh model shows identically is
+    not caused by the history and keeps the key the fresh-model scans give it; everything else is `after-history:*`."""
+    ev = 0
+    with warnings.catch_warnings():
+        warnings.simplefilter("ignore")
+        if not m.check_dim(m.dim):
+            stats["final dim invalid (warned): outside the property"] = stats.get("final dim invalid (warned): outside the property", 0) + 1
+            return 0
+    skw = state_kwargs(m)
+    fresh, fres, fwarn, _ = construct(cls, **skw)
+    case = {**case, "final_state": skw}
+    d = int(m.dim)
+    if fresh is None or fwarn:
+        stats["accepted in place, rejected by a fresh constructor (stale bounds)"] = stats.get("accepted in place, rejected by a fresh constructor (stale bounds)", 0) + 1
+    else:
+        stats["accepted in place and fresh"] = stats.get("accepted in place and fresh", 0) + 1
+    with warnings.catch_warnings():
+        warnings.simplefilter("ignore")
+        same = True
+        if fresh is not None and not fwarn:
+            # (a) values against the fresh model: same code on the same parameters, so equal up to the var round trip of
+            # the TPL classes (var = var_raw * var_factor)
+            amp = 1.0
+            if cls in TPL_ALPHA and m.len_low > 0:
+                a_, b_ = ((m.len_low + m.len_scale) / m.rescale) ** (2 * m.hurst), (m.len_low / m.rescale) ** (2 * m.hurst)
+                amp = (a_ + b_) / (a_ - b_)
+            hh = hist_lags(m)
+            c1, c2 = np.asarray(m.correlation(hh), float), np.asarray(fresh.correlation(hh), float)
+            ev += 1
+            fin = np.isfinite(c1) & np.isfinite(c2)
+            if np.any(np.isfinite(c1) != np.isfinite(c2)) or np.any(np.abs(c1 - c2)[fin] > 1e-13 * amp):
+                same = False
+                k = int(np.argmax(np.where(fin, np.abs(c1 - c2), np.inf)))
+                viol.append({"key": f"after-history:correlation-differs-from-fresh:{cls}",
+                             "what": f"after the in-place history correlation({float(hh[k])!r}) = {float(c1[k])!r}, but a freshly constructed {cls} with the same dimension and"
+                                     f" parameters gives {float(c2[k])!r}", "case": case})
+            pos = rng.randn(d, 8) * m.len_rescaled        # cov_spatial takes positions of the model dimension (lat-lon: 3 / 4)
+            s1, s2 = np.asarray(m.cov_spatial(pos), float), np.asarray(fresh.cov_spatial(pos), float)
+            if not np.allclose(s1, s2, rtol=1e-12 * amp, atol=1e-12 * amp * m.var, equal_nan=True):
+                if same:
+                    viol.append({"key": f"after-history:cov_spatial-differs-from-fresh:{cls}",
+                                 "what": f"after the in-place history cov_spatial differs from a freshly constructed {cls} with the same state by"
+                                         f" {float(np.nanmax(np.abs(s1 - s2))):.3e}", "case": case})
+                same = False
+            kk = np.array([0.3, 1.0, 3.0]) / m.len_rescaled
+            try:
+                p1, p2 = np.asarray(m.spectral_density(kk), float), np.asarray(fresh.spectral_density(kk), float)
+            except Exception:
+                p1 = p2 = np.zeros(1)
+            fin = np.isfinite(p1) & np.isfinite(p2)
+            if np.any(np.abs(p1 - p2)[fin] > 1e-9 * amp * (np.abs(p2)[fin] + 1e-300)):
+                viol.append({"key": f"after-history:spectral_density-differs-from-fresh:{cls}",
+                             "what": f"after the in-place history spectral_density({kk.tolist()}) = {p1.tolist()}, fresh model: {p2.tolist()}", "case": case})
+            # (b) cor(0) = 1, |cor| <= 1 on the model itself
+            if np.all(np.isfinite(c1)):
+                pre = "" if same else "after-history:"
+                if abs(c1[0] - 1.0) > 1e-12:
+                    viol.append({"key": f"{pre}correlation-at-zero:{cls}", "what": f"correlation(0) = {float(c1[0])!r} != 1 after an in-place history", "case": case})
+                over = np.abs(c1) > 1.0 + 1e-9
+                if over.any():
+                    i = int(np.argmax(np.where(over, np.abs(c1), 0)))
+                    viol.append({"key": f"{pre}correlation-exceeds-one:{cls}" + (":beyond-snap-window" if cls in TPL_ALPHA else ""),
+                                 "what": f"|correlation({float(hh[i])!r})| = {float(abs(c1[i]))!r} > 1 after an in-place history", "case": case})
+        # (c) covariance matrices of the model itself
+        mats = []
+        if m.latlon:
+            for name, ll in sphere_points(rng, 30):
+                if m.temporal:
+                    ll = np.vstack([ll, rng.randint(0, 4, ll.shape[1]) * m.len_rescaled * 0.5])
+                C1, C2 = cov_matrix_latlon(m, ll)
+                mats += [(name + "/isometrize", ll, C1, 0)] + ([(name + "/yadrenko", ll, C2, 1)] if C2 is not None else [])      # (built without nugget)
+        else:
+            # the nugget only adds a non-negative diagonal: the covariance FUNCTION has to be valid, so the matrices are taken
+            # without it (eig_scan constructs its models with nugget = 0)
+            psets = point_sets(rng, d, False)
+            if rich:     # a larger lattice (9 x 9, 5^3) at two spacings instead of the random cloud
+                per = {1: 60, 2: 9, 3: 5, 4: 3}[d]
+                grid = np.array(list(itertools.product(range(per), repeat=d)), dtype=float).T
+                psets = [("lattice", grid), ("fine-lattice", grid * 0.5), psets[1]]
+            for name, pos in psets:
+                mats.append((name, pos, cov_matrix_spatial(m, pos) - m.nugget * np.eye(pos.shape[1]), None))
+        for name, pos, C, route in mats:
+            ev += 1
+            n = C.shape[0]
+            if not matrix_fails(m, C):
+                continue
+            lam = min_eig(C) if np.all(np.isfinite(C)) else float("nan")
+            # the same matrix from the fresh model (only needed to classify a failure)
+            F = None
+            if fresh is not None and not fwarn:
+                F = cov_matrix_latlon(fresh, pos)[route] if m.latlon else cov_matrix_spatial(fresh, pos) - fresh.nugget * np.eye(n)
+            if fresh is None or fwarn:
+                key = f"stale-dim-dependent-bounds:{cls}"
+                what = (f"in-place history ends in a state that is accepted although a fresh {cls} with the same dimension and parameters "
+                        f"{'raises ' + str(fres) if fresh is None else 'warns about the dimension'}; covariance matrix min eigenvalue {lam:.3e} (n={n})")
+            elif np.allclose(C, F, rtol=1e-10, atol=1e-10 * m.var, equal_nan=True):
+                fb = f"negative-eigenvalue:{cls}:latlon{'+temporal' if m.temporal else ''}" if m.latlon else None
+                key = classify_failure(cls, d, m, spatial_lags(m, pos), C, fb)[0]
+                what = f"covariance matrix of an accepted model has min eigenvalue {lam:.3e} (n={n}); a freshly constructed model gives the same matrix"
+            else:
+                key = f"after-history:negative-eigenvalue:{cls}"
+                what = (f"after an in-place history the covariance matrix of the accepted model ({name}, n={n}, dim={d}) has min eigenvalue {lam:.3e}; the matrix of a freshly"
+                        f" constructed {cls} with the same dimension and parameters has min eigenvalue {(min_eig(F) if np.all(np.isfinite(F)) else float('nan')):.3e}")
+            viol.append({"key": key, "what": what, "case": {**case, "points": name, "min_eig": lam}})
+    return ev
+
+
+def history_scan(ctx, deep, viol, stats):
+    """C02 quantifies over every accepted (dimension, parameter set) — also when that state was reached in place.  For every
+    class: (A) every ordered pair of accepted dimensions d0 -> d1 (plain and space-time), the model having been evaluated
+    in d0; (B) every optional argument moved to both edges of its bounds from the default and from the opposite edge;
+    (C) len_scale (scalar / per-axis), rescale, var, nugget, anis, angles changed one at a time; (D) random compound
+    histories of 2-5 changes with evaluations in between, in plain / space-time / lat-lon / lat-lon+time configurations
+    (lat-lon: the dimension is not changeable, `model.dim = d` is still issued).  After each history: hist_check."""
+    rng = np.random.RandomState(ctx.seed + 18)
+    cyc = Cycle(ctx.seed + 5)
+    ev = 0
+    hs = stats.setdefault("histories", {})
+    full = deep or not ctx.quick
+
+    def go(cls, cfg, start, ops, kind, rich=False):
+        nonlocal ev
+        hs[kind] = hs.get(kind, 0) + 1
+        m, results = run_history(cls, start, ops)
+        case = {"cls": cls, "config": cfg, "start": start, "ops": [list(o) for o in ops]}
+        if m is None:
+            viol.append({"key": f"edge-parameter-rejected:{cls}", "what": f"start model of a history is rejected: {results[0][0]}", "case": case})
+            return
+        if any(r != "ok" for r, _ in results):
+            # a setter raised: the model did not accept the state (with stale bounds this is the over-rejecting side of D8;
+            # the raised argument / error case of every step is compared with the Lean history model in the correspondence)
+            hs["a setter raised: history dropped"] = hs.get("a setter raised: history dropped", 0) + 1
+            return
+        ev += hist_check(ctx, cls, m, case, viol, rng, hs, rich)
+
+    for ic, cls in enumerate(CLASSES):
+        if deep and _FOCUS and cls not in _FOCUS:
+            continue
+        # (A) dimension changes after an evaluation
+        for cfg in ("plain", "temporal"):
+            ok, bad = valid_dims(cls, cfg)
+            pairs = [(a, b) for a in ok for b in ok if a != b]
+            # a detour through a dimension the class warns about, back to an accepted one
+            detours = [(a, x, b) for a in ok[:1] for x in bad[:1] for b in ok[-1:]]
+            if not full and cfg == "temporal":
+                pairs = [p for i, p in enumerate(pairs) if (i + ic + ctx.seed) % 2 == 0]
+            for ip, (d0, d1) in enumerate(pairs):
+                dmax = max(d0, d1)
+                ev_ = edge_values(cls, dmax, temporal=cfg == "temporal")
+                levels = ["all", "some", "none"] if full else [["all"], ["some"], ["all"], ["some"], ["all"], ["none"]][(ip + ic + ctx.seed) % 6]
+                for il, level in enumerate(levels):
+                    # optional arguments inside the bounds of BOTH dimensions (the larger one has the tighter bounds), walking
+                    # through the edge values
+                    opt = {a: v[(ip + il + ctx.seed) % len(v)] for a, v in ev_.items()}
+                    start = hist_start(cls, cfg, d0, rng, cyc, opt)
+                    go(cls, cfg, start, [("touch", draw_touch(rng, level)), ("set", "dim", d1)], f"A dim {'up' if d1 > d0 else 'down'} ({cfg}), evaluated before: {level}",
+                       rich=full or cls not in TPL_ALPHA)
+            for d0, x, d1 in detours:
+                start = hist_start(cls, cfg, d0, rng, cyc, {a: v[0] for a, v in edge_values(cls, max(d0, d1), temporal=cfg == "temporal").items()})
+                go(cls, cfg, start, [("touch", draw_touch(rng, "all")), ("set", "dim", x), ("touch", draw_touch(rng, "some")), ("set", "dim", d1)],
+                   "A dim detour through a warned dimension", rich=True)
+        # (B) optional arguments to both edges
+        for cfg, d in (("plain", 1 + (ic + ctx.seed) % 3), [("temporal", 2 + (ic + ctx.seed) % 3), ("latlon", 3)][(ic + ctx.seed) % 2]) if not full else \
+                [("plain", 1), ("plain", 2), ("plain", 3), ("temporal", 3), ("latlon", 3), ("latlon+temporal", 4)]:
+            okd, _ = valid_dims(cls, "temporal" if cfg == "temporal" else "plain")
+            if not okd:
+                continue
+            if cfg in ("plain", "temporal") and d not in okd:
+                d = okd[-1]
+            if cfg.startswith("latlon") and (3 + int(cfg.endswith("temporal"))) not in valid_dims(cls, "plain")[0]:
+                continue
+            cfgkw = {"latlon": True, "temporal": cfg.endswith("temporal")} if cfg.startswith("latlon") else {"temporal": cfg == "temporal"}
+            ev_ = edge_values(cls, d, **cfgkw)
+            first = full or cfg == "plain"          # quick tier: the second configuration only gets the edge-to-edge moves
+            for a, vals in ev_.items():
+                for v0, v1 in ([(vals[-1], v) for v in vals[:-1]] if first else []) + [(vals[0], vals[2]), (vals[2], vals[0])]:
+                    start = hist_start(cls, cfg, d, rng, cyc, {a: v0})
+                    go(cls, cfg, start, [("touch", draw_touch(rng, "all" if rng.rand() < 0.5 else "some")), ("set", a, v1)], f"B optional argument to an edge ({cfg})")
+            for a in rescalable_opt_args(cls):
+                for f0, f1 in ((0.0, 1.0), (1.0, 0.0), (0.1, 5.0), (5.0, 0.1)) if first else ((0.0, 5.0), (1.0, 0.0)):
+                    start = hist_start(cls, cfg, d, rng, cyc)
+                    start[a] = f0 * start["len_scale"]
+                    go(cls, cfg, start, [("touch", draw_touch(rng, "all")), ("set", a, f1 * start["len_scale"])], f"B rescalable length changed ({cfg})")
+        # (C) one scale / orientation parameter at a time
+        for attr in ("len_scale", "len_scale_vec", "rescale", "var", "nugget", "anis", "angles"):
+            cfg = ["plain", "temporal", "latlon+temporal", "plain"][(ic + len(attr) + ctx.seed) % 4]
+            if (cfg.startswith("latlon") and 4 not in valid_dims(cls, "plain")[0]) or not valid_dims(cls, "temporal")[0]:
+                cfg = "plain"
+            okd, _ = valid_dims(cls, "temporal" if cfg == "temporal" else "plain")
+            cand = [x for x in okd if x > 1] or okd
+            d = cand[(ic + ctx.seed) % len(cand)]
+            if attr in ("len_scale_vec", "angles") and (cfg.startswith("latlon") or d == 1):
+                continue
+            if attr == "anis" and cfg != "latlon+temporal" and d == 1:
+                continue
+            start = hist_start(cls, cfg, d, rng, cyc)
+            ls = start["len_scale"]
+            value = {"len_scale": ls * 0.5, "len_scale_vec": [ls * f for f in (1.0, 0.6, 1.7, 0.4)[:d]], "rescale": [2.0, 0.4, None][(ic + ctx.seed) % 3],
+                     "var": 0.7, "nugget": 0.5, "anis": [float(10 ** rng.uniform(-0.7, 0.7)) for _ in range(1 if cfg.startswith("latlon") else d - 1)],
+                     "angles": [float(rng.uniform(-3, 3)) for _ in range(d * (d - 1) // 2)]}[attr]
+            go(cls, cfg, start, [("touch", draw_touch(rng, "all")), ("set", attr.replace("_vec", ""), value)], f"C {attr}")
+        # (D) random compound histories
+        for t in range(ctx.scale(5, 40) * (3 if deep else 1)):
+            cfg = ["plain", "plain", "temporal", "latlon", "latlon+temporal"][(t + ic + ctx.seed) % 5]
+            if (cfg.startswith("latlon") and (3 + int(cfg.endswith("temporal"))) not in valid_dims(cls, "plain")[0]) or \
+                    (cfg == "temporal" and not valid_dims(cls, "temporal")[0]):
+                cfg = "plain"
+            okd, _ = valid_dims(cls, "temporal" if cfg == "temporal" else "plain")
+            d = 3 + int(cfg.endswith("temporal")) if cfg.startswith("latlon") else int(okd[rng.randint(len(okd))])
+            # optional arguments valid in every accepted dimension the history may visit
+            ev_ = edge_values(cls, okd[-1] if not cfg.startswith("latlon") else d, **({"latlon": True, "temporal": cfg.endswith("temporal")} if cfg.startswith("latlon") else {"temporal": cfg == "temporal"}))
+            start = hist_start(cls, cfg, d, rng, cyc, {a: v[rng.randint(len(v))] for a, v in ev_.items()})
+            cur = {"dim": d, "len_scale": start["len_scale"]}
+            ops = [("touch", draw_touch(rng, ["all", "some", "some", "none"][rng.randint(4)]))]
+            for _ in range(int(rng.randint(2, 6))):
+                op = draw_op(cls, cfg, cur, rng)
+                ops.append(op)
+                if op[1] == "dim" and not cfg.startswith("latlon"):
+                    cur["dim"] = op[2]
+                if op[1] == "len_scale":
+                    cur["len_scale"] = float(op[2][0] if isinstance(op[2], list) else op[2])
+                if rng.rand() < 0.7:
+                    ops.append(("touch", draw_touch(rng, "some")))
+            go(cls, cfg, start, ops, f"D random compound ({cfg})")
+    return ev
+
+
 def directed(ctx, viol):
     """corpus of past findings, replayed first on every run (fixed inputs, no randomness)"""
     g = gs()
@@ -1358,6 +2022,7 @@ def search(ctx, deep=False):
     e5 = _safe("mix_scan", viol, mix_scan, ctx, deep, viol)
     e6 = _safe("rescale_scan", viol, rescale_scan, ctx, deep, viol)
     e2 = _safe("cor_scan", viol, cor_scan, ctx, deep, viol)
+    e7 = _safe("history_scan", viol, history_scan, ctx, deep, viol, stats)
     e1 = _safe("eig_scan", viol, eig_scan, ctx, deep, viol, stats)
     e3 = _safe("spectrum_scan", viol, spectrum_scan, ctx, deep, viol)
     # one violation per key
@@ -1371,11 +2036,14 @@ def search(ctx, deep=False):
         out.sort(key=lambda v: bool(match_known("C02", v["key"])))
     except Exception:
         pass
-    return {"evaluations": e1 + e2 + e3 + e4 + e5 + e6, "violations": out[:12],
+    return {"evaluations": e1 + e2 + e3 + e4 + e5 + e6 + e7, "violations": out[:12],
             "summary": f"{e1} covariance matrices (lattice / clusters / random / sphere; plain, anisotropic-rotated, temporal, lat-lon via isometrize and via cov_yadrenko)"
                        f" at the edges of every bound: min eigenvalue >= -1e-8 n var; {e2} correlation grids (cor(0)=1, |cor|<=1); {e3} radial-Fourier-transform sign"
                        f" evaluations (quadrature for compact supports, shipped spectral densities); {e4} matrices on stale-dimension histories (D8);"
                        f" {e5} TPL correlations against the quadrature of the defining superposition over the rescaled truncation interval; {e6} model pairs"
-                       f" (len_scale, rescale=s, lengths) vs (len_scale/s, 1, lengths/s) and X_rescaled = X / rescale.  Every scan walks through all"
+                       f" (len_scale, rescale=s, lengths) vs (len_scale/s, 1, lengths/s) and X_rescaled = X / rescale; {e7} correlation grids / covariance matrices of"
+                       f" models that went through in-place histories (evaluate, then dim up / down, optional arguments to both edges, len_scale / rescale / var /"
+                       f" nugget / anis / angles, compound; plain, space-time, lat-lon): same PSD scans + equality with a freshly constructed model of the same"
+                       f" state; histories: {stats.get('histories', {})}.  Every scan walks through all"
                        f" combinations of rescale {RESCALES} (None = default) and rescalable optional lengths {LOW_FACTORS} x len_scale."
                        f" worst min-eig/(n var) per class: {stats.get('worst_relative_min_eig', {})}"}
